@@ -52,6 +52,7 @@ type c08Result struct {
 	ID          string    `json:"id"`
 	Calls       []c08Call `json:"calls"`
 	FaultMs     float64   `json:"fault_ms"` // when the fault was injected (-1 = not reached)
+	Seen        map[string]int `json:"seen,omitempty"` // how often the peer received the tools/call request of each call (by nonce)
 	Delivered   bool      `json:"delivered"`
 	DeliveredTo string    `json:"delivered_to"` // nonce of the call whose answer was cut ("*" = every call has its own)
 	Offset      int       `json:"offset"`
@@ -103,6 +104,7 @@ type c08Srv struct {
 	offset  int
 	total   int
 	calls   int // tools/call requests seen
+	seen    map[string]int // tools/call requests seen, per nonce
 	callsCh chan struct{}
 	// legacy
 	stream   net.Conn
@@ -273,6 +275,10 @@ func (s *c08Srv) serveConn(c net.Conn) {
 			s.mu.Lock()
 			s.calls++
 			n := s.calls
+			if s.seen == nil {
+				s.seen = map[string]int{}
+			}
+			s.seen[m.Params.Arguments.Nonce]++
 			s.mu.Unlock()
 			if n == s.sc.NCalls {
 				close(s.callsCh)
@@ -716,6 +722,10 @@ func c08Run(sc c08Scenario) (res c08Result) {
 			res.FaultMs = ms(srv.faultAt)
 		}
 		res.Delivered, res.Offset, res.Total, res.DeliveredTo = srv.deliv, srv.offset, srv.total, srv.delivTo
+		res.Seen = map[string]int{}
+		for k, v := range srv.seen {
+			res.Seen[k] = v
+		}
 		srv.mu.Unlock()
 	} else if b, err := os.ReadFile(countFile); err == nil {
 		var ns int64
